@@ -78,15 +78,17 @@ _it_cache = {}
 
 
 def index_terms(exprs, limit=60):
+    """(term, kind) for Int-sorted index arguments of select / nth applications in the quantifier-free parts of exprs
+    (one traversal with a shared visited set: hypotheses share most of their subterms)"""
+    from .smt import raw_find
     found = {}
-    for e in exprs:
-        i = e.get_id()
-        r = _it_cache.get(i)
-        if r is None:
-            r = (_index_terms1(e), e)
-            _it_cache[i] = r
-        for t, kd in r[0]:
-            found.setdefault((t.get_id(), kd), (t, kd))
+    for e in raw_find(list(exprs), ("select", "seq.nth", "seq.nth_i", "seq.nth_u", "seq.at"), skip_quant=True, prefixes="nth."):
+        kd = _kind_of_app(e)
+        if kd is None or e.num_args() < 2:
+            continue
+        ix = e.arg(1)
+        if ix.sort() == z3.IntSort() and not _has_var(ix):
+            found.setdefault((ix.get_id(), kd), (ix, kd))
     return list(found.values())[:limit]
 
 
@@ -407,8 +409,9 @@ def nth_axioms(formulas, rounds=10, limit=6000):
     work = list(formulas)
     for _ in range(rounds):
         apps = {}
-        for f in work:
-            for a in _nth_apps(f):
+        from .smt import raw_find as _rf
+        for a in _rf(list(work), (), skip_quant=True, prefixes="nth."):
+            if a.num_args() == 2 and not _has_var(a):
                 apps[a.get_id()] = a
         new = []
         for a in apps.values():
